@@ -68,7 +68,7 @@ def gen_case(seed, tier, index=0):
             else:
                 content = body
         elif k == "binary":
-            name, content = f"d{i % 2}/f{i}.bin", "\x00\x01\x02binary\x00" + "\udcff" * 4
+            name, content = f"d{i % 2}/f{i}.bin", G.BINARY
         elif k == "uncommentable":
             name, content = f"d{i % 2}/f{i}.json", '{"a": 1}\n'
         else:
